@@ -2,11 +2,11 @@ module verifharness
 
 go 1.23.0
 
-require github.com/moov-io/imagecashletter v0.0.0
-
 require (
-	github.com/gdamore/encoding v1.0.1 // indirect
-	golang.org/x/text v0.23.0 // indirect
+	github.com/gdamore/encoding v1.0.1
+	github.com/moov-io/imagecashletter v0.0.0
 )
+
+require golang.org/x/text v0.23.0 // indirect
 
 replace github.com/moov-io/imagecashletter => /repo
